@@ -5,7 +5,6 @@
     history:  extend b1 · issue "a3" (wallet "w1") · handle · extend d2 · handle
   When "a3" is issued the node is at G–b1 and the wallet still at G (`S ≠ N`): neither pays "a3".
   The initial keystore view is `exOwn` ("a1", "a2"); `e.own` is `[]` – it is never read.
-  The rollback interface `DisconnectSpec` is a hypothesis of the examples, as in the reorg theorems.
 -/
 import MW.Lemmas.LedgerIssue2
 import MW.Lemmas.LedgerHistoryEx
@@ -48,8 +47,8 @@ theorem ixOK (own : Own) (hv : ChainValid own [hxG, hxB1, ixD2]) :
 theorem ixValid0 : ChainValid exOwn [hxG, hxB1, ixD2] := by decide
 theorem ixValid1 : ChainValid ixOwn' [hxG, hxB1, ixD2] := by decide
 
-/-- THE HYPOTHESES OF `ledger_correct_issue` HOLD for this history (given the rollback interface) -/
-theorem ixRunHypI (hd : ∀ own ch, DisconnectSpec ({ ixEnv with own := own }.ctx ch)) :
+/-- THE HYPOTHESES OF `ledger_correct_issue` HOLD for this history -/
+theorem ixRunHypI :
     RunHypI ixEnv hxG ix0 ixEvs where
   genesisOnly := by
     intro id x h h0
@@ -59,7 +58,6 @@ theorem ixRunHypI (hd : ∀ own ch, DisconnectSpec ({ ixEnv with own := own }.ct
   genesisPrev := by
     intro id x h
     rcases ixKnown_cases h with rfl | rfl | rfl <;> decide
-  disc := hd
   chain0 := (ixOK exOwn ixValid0).take 0
   chains := by
     intro pre ev post heq
@@ -112,10 +110,10 @@ theorem ixOwn : (runI ixEnv ix0 ixEvs).own = ixOwn' := rfl
 
 /-- `ledger_correct_issue` on the example: at the end the store holds exactly the books of `G – b1 – d2` FOR THE
     KEYSTORE VIEW THAT KNOWS "a3", and the follower's tip is `d2` -/
-theorem ixCorrect (hd : ∀ own ch, DisconnectSpec ({ ixEnv with own := own }.ctx ch)) :
+theorem ixCorrect :
     Inv ({ ixEnv with own := ixOwn' }.ctx [hxG, hxB1, ixD2]) (runI ixEnv ix0 ixEvs).w.s [hxG, hxB1, ixD2] ∧
       (runI ixEnv ix0 ixEvs).w.v.best = ⟨2, "d2"⟩ := by
-  have h := ledger_correct_issue ixEnv hxG ix0 ixEvs (ixRunHypI hd)
+  have h := ledger_correct_issue ixEnv hxG ix0 ixEvs ixRunHypI
     ((inv_ctx_irrel (c := obCtx) (c' := ({ ixEnv with own := exOwn }).ctx [hxG]) rfl rfl rfl).1 obInv0)
     rfl rfl ixQueue
   rw [ixChain, ixOwn] at h
@@ -123,14 +121,14 @@ theorem ixCorrect (hd : ∀ own ch, DisconnectSpec ({ ixEnv with own := own }.ct
 
 /-- … in particular the payment to the issued address is booked: the balance of "w1" is 50 ("a1") + 50 ("a3"),
     whereas for the initial keystore view the chain pays "w1" only 50 -/
-example (hd : ∀ own ch, DisconnectSpec ({ ixEnv with own := own }.ctx ch)) :
+example :
     AMap.get (runI ixEnv ix0 ixEvs).w.s.balance "w1" = some 100 ∧
       totalU (bookOf ixEnv.p exOwn [hxG, hxB1, ixD2]).L "w1" = 50 := by
   refine ⟨?_, by decide⟩
-  have hr := ledger_ready_issue ixEnv hxG ix0 ixEvs (ixRunHypI hd)
+  have hr := ledger_ready_issue ixEnv hxG ix0 ixEvs ixRunHypI
     ((inv_ctx_irrel (c := obCtx) (c' := ({ ixEnv with own := exOwn }).ctx [hxG]) rfl rfl rfl).1 obInv0)
     rfl rfl
-  have hb := (ixCorrect hd).1.bal "w1" (by
+  have hb := ixCorrect.1.bal "w1" (by
     show (readyWallets (runI ixEnv ix0 ixEvs).w.s ixEnv.wallets).contains "w1" = true
     rw [hr]
     show (readyWallets obS0 obCtx.wallets).contains "w1" = true
